@@ -143,6 +143,9 @@ def tlc(module, cfg=None, spec_dir=None, workers=1, simulate=None, depth=None, t
         m = re.match(r"^(\d+) states generated, (\d+) distinct states found", line)
         if m:
             r.generated, r.distinct = int(m.group(1)), int(m.group(2))
+        m = re.match(r"^The number of states generated: (\d+)", line)      # -simulate
+        if m and not r.generated:
+            r.generated = r.distinct = int(m.group(1))
         m = re.match(r"^The depth of the complete state graph search is (\d+)", line)
         if m:
             r.depth = int(m.group(1))
